@@ -123,7 +123,7 @@ func genC17(t *rapid.T) *C17Case {
 					tg.Key = rapid.SampledFrom(c17Names).Draw(t, "ukey")
 				}
 			case 2:
-				tg.Rx, tg.Key = true, rapid.SampledFrom([]string{"^a", "b$", "^c"}).Draw(t, "urx")
+				tg.Rx, tg.Key = true, rapid.SampledFrom([]string{"^a", "b$", "^c", "^H", "^A"}).Draw(t, "urx")
 			}
 			ts = append(ts, tg)
 		}
